@@ -84,7 +84,7 @@ package kex
 //@   ensures! u(result) == SuiteOf(u(id))
 
 //@ func kex.DHSession.MarshalCBOR
-//@   props C14 C10(sweep)
+//@   props C14 C18 C10(sweep)
 //@   sweep bounds,panic,make
 //@   callsites Marshal 1
 //@   callassert Marshal#1: @all u(unwrap(arg0)) == u(persist)
@@ -92,32 +92,53 @@ package kex
 //@   callassert Marshal#1: @params imp(s.a != nil, BigOf(bytes(persist.ParamA)) == BigVal(u(s.a))) && imp(s.xA != nil, BigOf(bytes(persist.ParamXA)) == BigVal(u(s.xA))) && imp(s.b != nil, BigOf(bytes(persist.ParamB)) == BigVal(u(s.b))) && imp(s.xB != nil, BigOf(bytes(persist.ParamXB)) == BigVal(u(s.xB)))
 
 //@ func kex.DHSession.UnmarshalCBOR
-//@   props C14 C10(sweep)
+//@   props C14 C18 C10(sweep)
 //@   sweep bounds,make
 //@   ensures @crypter ? err == nil ==> s.ID == persist.Cipher && u(s.Cipher) == SuiteOf(u(persist.Cipher)) && u(s.SEK) == u(persist.SEK) && u(s.SVK) == u(persist.SVK)
 //@   ensures @group ? err == nil ==> s.g == persist.Generator && s.paramSize == persist.ParamSize && s.p != nil && BigVal(u(s.p)) == BigOf(bytes(persist.Prime))
 //@   ensures @params ? err == nil ==> imp(len(persist.ParamA) > 0, s.a != nil && BigVal(u(s.a)) == BigOf(bytes(persist.ParamA))) && imp(len(persist.ParamXA) > 0, s.xA != nil && BigVal(u(s.xA)) == BigOf(bytes(persist.ParamXA))) && imp(len(persist.ParamB) > 0, s.b != nil && BigVal(u(s.b)) == BigOf(bytes(persist.ParamB))) && imp(len(persist.ParamXB) > 0, s.xB != nil && BigVal(u(s.xB)) == BigOf(bytes(persist.ParamXB)))
 
 //@ func kex.ECDHSession.MarshalCBOR
-//@   props C14 C10(sweep)
+//@   props C14 C18 C10(sweep)
 //@   sweep bounds,panic,make
 //@   callsites Marshal 1
 //@   callassert Marshal#1: @all u(unwrap(arg0)) == tuple(s.randSize, s.xA, s.xB, keyBytes, s.ID, s.SEK, s.SVK)
 
 //@ func kex.ECDHSession.UnmarshalCBOR
-//@   props C14 C10(sweep)
+//@   props C14 C18 C10(sweep)
 //@   sweep bounds,make
 //@   ensures @crypter ? err == nil ==> s.ID == persist.Cipher && u(s.Cipher) == SuiteOf(u(persist.Cipher)) && u(s.SEK) == u(persist.SEK) && u(s.SVK) == u(persist.SVK)
 //@   ensures @params ? err == nil ==> s.randSize == persist.RandSize && u(s.xA) == u(persist.ParamA) && u(s.xB) == u(persist.ParamB) && u(s.priv) == u(key)
 
 //@ func kex.OAEPSession.MarshalCBOR
-//@   props C14 C10(sweep)
+//@   props C14 C18 C10(sweep)
 //@   sweep bounds,panic,make
 //@   callsites Marshal 1
 //@   callassert Marshal#1: @all u(unwrap(arg0)) == tuple(s.paramSize, s.xA, s.xB, s.ID, s.SEK, s.SVK)
 
 //@ func kex.OAEPSession.UnmarshalCBOR
-//@   props C14 C10(sweep)
+//@   props C14 C18 C10(sweep)
 //@   sweep bounds,make
 //@   ensures @crypter ? err == nil ==> s.ID == persist.Cipher && u(s.Cipher) == SuiteOf(u(persist.Cipher)) && u(s.SEK) == u(persist.SEK) && u(s.SVK) == u(persist.SVK)
 //@   ensures @params ? err == nil ==> s.paramSize == persist.ParamSize && u(s.xA) == u(persist.ParamXA) && u(s.xB) == u(persist.ParamXB)
+
+// ---- the key-exchange validity table of FDO 1.1 section 3.6.5 (C09): a device with an
+// RSA key accepts every suite; for an EC device (either curve) the exchange is fixed by
+// the owner key: RSA-2048 -> DHKEXid14 / ASYMKEX2048, RSA-3072 -> DHKEXid15 /
+// ASYMKEX3072, P-256 -> ECDH256, P-384 -> ECDH384; everything else is refused.
+// The flags are the function's own classification of the two keys; they are pinned
+// to the inputs by the clauses below the table.
+//@ func kex.Suite.Valid
+//@   props C09 C10(sweep)
+//@   sweep bounds,panic,make,nilmem
+//@   pure
+//@   ensures! result == SuiteValid(u(s), u(device), u(owner))
+//@   ensures @rsadevice ? deviceIsRSA ==> result
+//@   ensures @table ? !deviceIsRSA ==> result == ((deviceIsP256 || deviceIsP384) && ((ownerIsRSA2048 && (s == "DHKEXid14" || s == "ASYMKEX2048")) || (ownerIsRSA3072 && (s == "DHKEXid15" || s == "ASYMKEX3072")) || (ownerIsP256 && s == "ECDH256") || (ownerIsP384 && s == "ECDH384")))
+//@   ensures @devkind dyntype(device, "*rsa.PublicKey") ==> result
+//@   ensures @devcurve ? dyntype(device, "*ecdsa.PublicKey") ==> deviceIsP256 == (u(deviceKey.Curve) == CurveP256()) && deviceIsP384 == (u(deviceKey.Curve) == CurveP384()) && !deviceIsRSA
+//@   ensures @devalg ? dyntype(device, "cose.SignatureAlgorithm") ==> deviceIsP256 == (deviceKey == -7) && deviceIsP384 == (deviceKey == -35) && deviceIsRSA == (deviceKey == -257 || deviceKey == -258 || deviceKey == -37 || deviceKey == -38)
+//@   ensures @devother ? !dyntype(device, "*rsa.PublicKey") && !dyntype(device, "*ecdsa.PublicKey") && !dyntype(device, "cose.SignatureAlgorithm") ==> !result
+//@   ensures @ownercurve ? !deviceIsRSA && dyntype(owner, "*ecdsa.PublicKey") ==> ownerIsP256 == (u(ownerKey.Curve) == CurveP256()) && ownerIsP384 == (u(ownerKey.Curve) == CurveP384()) && !ownerIsRSA2048 && !ownerIsRSA3072
+//@   ensures @ownerrsa ? !deviceIsRSA && dyntype(owner, "*rsa.PublicKey") ==> ownerIsRSA2048 == (RsaSize(u(ownerKey)) == 256) && ownerIsRSA3072 == (RsaSize(u(ownerKey)) == 384) && !ownerIsP256 && !ownerIsP384
+//@   ensures @ownerother ? !deviceIsRSA && !dyntype(owner, "*rsa.PublicKey") && !dyntype(owner, "*ecdsa.PublicKey") ==> !result
